@@ -40,7 +40,19 @@ def case(t):
         n = t.int(1, 12)
     ns = t.int(1, 6)
     m = t.weighted([(4, 1), (2, 2), (1, 4)])
-    kernel, ref, klabel, din, kparams = build_kernel(t, d)
+    kernel, ref0, klabel, din, kparams = build_kernel(t, d)
+    # the posterior code also accepts the kernel as a pair (kernel, covariance scale)
+    ext = math.exp(t.float(math.log(0.05), math.log(20.0))) if t.chance(1, 4) else None
+    kern_arg = kernel if ext is None else (kernel, np.array([ext]))
+    escale = 1.0 if ext is None else ext
+    ref = None if ref0 is None else (lambda A, B: escale * ref0(A, B))
+
+    def kmat(A, B):
+        return escale * np.array(kernel(A, B))
+
+    def kdiag(A):
+        return escale * np.array(kernel.diagonal(A)).reshape(-1)
+
     Xl = gen_points(t, n, d)
     Xs = gen_points(t, ns, d, base=Xl)
     if klabel == "expdecay":
@@ -62,12 +74,14 @@ def case(t):
         sig2 = math.exp(t.float(math.log(1e-9), math.log(1e2)))
     noise = np.array([sig2])
     labels = {klabel, f"fantasies-{m}" if m > 1 else "single-target"}
-    ctx = f"kernel={klabel} params={ {k: float(v) if v is not None and not isinstance(v, str) else v for k, v in kparams.items()} } mean={mval} sigma2={sig2} n={n} d={din} n*={ns} m={m}"
+    if ext is not None:
+        labels.add("kernel-as-pair")
+    ctx = f"kernel={klabel} pair_scale={ext} params={ {k: float(v) if v is not None and not isinstance(v, str) else v for k, v in kparams.items()} } mean={mval} sigma2={sig2} n={n} d={din} n*={ns} m={m}"
     # ---- kernel matrices: library vs textbook
-    K_lib = np.array(kernel(X, X))
-    Ks_lib = np.array(kernel(X, Xt))
-    Kss_lib = np.array(kernel(Xt, Xt))
-    kdiag_lib = np.array(kernel.diagonal(Xt)).reshape(-1)
+    K_lib = kmat(X, X)
+    Ks_lib = kmat(X, Xt)
+    Kss_lib = kmat(Xt, Xt)
+    kdiag_lib = kdiag(Xt)
     scale = max(1.0, float(np.max(np.abs(K_lib))), float(np.max(np.abs(kdiag_lib))))
     ib_max = max([float(v) for k_, v in kparams.items() if "inv_bw" in k_ and v is not None] + [1.0])
     # the library smooths sqrt(D) as sqrt(D + 1e-9) (deviation <= 5e-10 cs, attained at D = 0) and expands squared distances (cancellation ~ eps ib^2 d)
@@ -87,14 +101,14 @@ def case(t):
         w = np.linalg.eigvalsh(0.5 * (K + K.T))
         if w.min() < -1e-8 * scale:
             raise Violation(f"kernel-not-psd:{klabel}", f"{ctx}: smallest eigenvalue {w.min()}")
-        Kst = np.array(kernel(Xt, X))
+        Kst = kmat(Xt, X)
         if not np.allclose(Kst, Ks.T, rtol=1e-10, atol=1e-12 * scale):
             raise Violation(f"kernel-not-symmetric:{klabel}", f"{ctx}: K(X*,X) != K(X,X*)^T")
     if not np.allclose(kdiag_lib, kss, rtol=1e-12, atol=ktol):
         raise Violation(f"kernel-diagonal:{klabel}", f"{ctx}: diagonal(X*) = {kdiag_lib} but diag K(X*,X*) = {kss}")
     kss = kdiag_lib
     # ---- posterior state
-    state = IncrementalUpdateGPPosteriorState(features=X, targets=Y, mean=mean, kernel=kernel, noise_variance=noise)
+    state = IncrementalUpdateGPPosteriorState(features=X, targets=Y, mean=mean, kernel=kern_arg, noise_variance=noise)
     L = np.array(state.chol_fact)
     M = L @ L.T - K
     off = M - np.diag(np.diag(M))
@@ -142,7 +156,7 @@ def case(t):
     else:
         # fantasy columns are independent target vectors sharing one covariance
         j = t.index(m)
-        s1 = GaussProcPosteriorState(features=X, targets=Y[:, j : j + 1], mean=mean, kernel=kernel, noise_variance=noise)
+        s1 = GaussProcPosteriorState(features=X, targets=Y[:, j : j + 1], mean=mean, kernel=kern_arg, noise_variance=noise)
         pm1, pv1 = s1.predict(Xt)
         if not np.allclose(np.array(pm1)[:, 0], pm[:, j], rtol=tol, atol=tol) or not np.allclose(np.array(pv1), pv, rtol=tol, atol=tol):
             raise Violation("fantasy-columns-not-independent", f"{ctx}: column {j}")
@@ -177,8 +191,8 @@ def case(t):
             yn, st2 = state.sample_and_update(xn, mean_impute_mask=mask, random_state=np.random.RandomState(seed))
             yn = np.array(yn).reshape(1, m)
             # the drawn target itself
-            kx_ = np.array(kernel(X, xn))
-            mu_r, var_r, _, _, _ = dense_posterior(K, kx_, np.array(kernel.diagonal(xn)).reshape(-1), None, mean_tr, np.full(1, mval), Y, np.full(n, c))
+            kx_ = kmat(X, xn)
+            mu_r, var_r, _, _, _ = dense_posterior(K, kx_, kdiag(xn), None, mean_tr, np.full(1, mval), Y, np.full(n, c))
             z = np.random.RandomState(seed).normal(size=(1, m))
             if mask is not None:
                 z[0, mask] = 0
@@ -192,9 +206,9 @@ def case(t):
             labels.add("incremental-update")
         X2 = np.concatenate([X, xn], axis=0)
         Y2 = np.concatenate([Y, yn], axis=0)
-        K2 = np.array(kernel(X2, X2))
-        K2[n, n] = float(np.array(kernel.diagonal(xn)).reshape(-1)[0])  # the update takes the new diagonal entry from kernel.diagonal
-        Ks2 = np.array(kernel(X2, Xt))
+        K2 = kmat(X2, X2)
+        K2[n, n] = float(kdiag(xn)[0])  # the update takes the new diagonal entry from kernel.diagonal
+        Ks2 = kmat(X2, Xt)
         L2 = np.array(st2.chol_fact)
         c2 = float((L2 @ L2.T - K2)[n, n])
         noise_diag = np.array([c] * n + [c2])
@@ -210,13 +224,13 @@ def case(t):
             if not np.allclose(np.array(pv2), np.maximum(v2, 1e-12), rtol=tol2, atol=tol2):
                 raise Violation("incremental-update-variance", f"{ctx}: library {np.array(pv2).tolist()} dense {np.maximum(v2, 1e-12).tolist()}")
             if abs(c2 - sig2) <= 1e-6 * sig2 + 1e-8 * scale and abs(c - sig2) <= 1e-6 * sig2 + 1e-8 * scale:
-                s3 = GaussProcPosteriorState(features=X2, targets=Y2, mean=mean, kernel=kernel, noise_variance=noise)
+                s3 = GaussProcPosteriorState(features=X2, targets=Y2, mean=mean, kernel=kern_arg, noise_variance=noise)
                 pm3, pv3 = s3.predict(Xt)
                 tol3 = 2 * tol2 + 2e-9 * cond2 * scale * yscale  # k(x, x) from the matrix is cs (1 - 5e-10), from diagonal() it is cs
                 if tol3 <= 1e-3 and (not np.allclose(np.array(pm3), np.array(pm2), rtol=tol3, atol=tol3) or not np.allclose(np.array(pv3), np.array(pv2), rtol=tol3, atol=tol3)):
                     raise Violation("incremental-update-differs-from-scratch", f"{ctx}")
     # ---- the same through the model class (what the searchers use)
-    if t.chance(1, 3):
+    if ext is None and t.chance(1, 3):
         from syne_tune.optimizer.schedulers.searchers.bayesopt.gpautograd.gp_regression import GaussianProcessRegression
 
         full = {"noise_variance": sig2}
@@ -245,5 +259,5 @@ def case(t):
 
 
 SUBCHECKS = {
-    "dense": {"fn": case, "quick": 48000, "thorough": 800000, "required": ["fantasies", "model-class", "incremental-update", "sample-and-update", "joint-samples", "expdecay", "product", "warped-2"]},
+    "dense": {"fn": case, "quick": 48000, "thorough": 800000, "required": ["kernel-as-pair", "fantasies", "model-class", "incremental-update", "sample-and-update", "joint-samples", "expdecay", "product", "warped-2"]},
 }
